@@ -158,7 +158,7 @@ PROPERTIES = {
     },
     'C03': {
         'units': [sm.RFCalcKick, sm.RFKickMapLinearCtor, sm.RFKickMapSinCtor, sm.DriftMapCtor, sm.KickMapCtor, sm.UpdateSM, sm.KickMapApply,
-                  sm.CalcCoefficiants, ps.RulerCtor, mainspec.MainConfig, mainspec.MainPhysics, mainspec.MainWiring, mainspec.MapDispatch, io.ProgramOptionsGetters],
+                  sm.CalcCoefficiants, ps.RulerCtor, mainspec.MainConfig, mainspec.MainPhysics, mainspec.MainUnits, mainspec.MainWiring, mainspec.MapDispatch, io.ProgramOptionsGetters],
         'lemmas': [sm.lemmas_c03, sm.lemmas_weights],
         'level': 'other',
         'claim': 'one-step law: the RF map displaces row x by tan(angle)*(zerobin-x) cells (sinusoidal: the stated sine law), the drift displaces row y by slip*p(y)/delta_q with slip0 = angle = 2*pi/steps, '
@@ -211,7 +211,7 @@ PROPERTIES = {
         'technique': TECH,
     },
     'C05': {
-        'units': [mainloop.MainLoop, mainspec.MainConfig, mainspec.MainWiring, mainspec.MapDispatch, io.ProgramOptionsGetters, sm.WakePotentialMapUpdate, ef.ElectricFieldScale, sm.RFCalcKick, sm.DriftMapCtor, sm.FokkerPlanckCtor, ef.WakePotential, sm.UpdateSM, sm.KickMapApply],
+        'units': [mainloop.MainLoop, mainspec.MainConfig, mainspec.MainUnits, mainspec.MainWiring, mainspec.MapDispatch, io.ProgramOptionsGetters, sm.WakePotentialMapUpdate, ef.ElectricFieldScale, sm.RFCalcKick, sm.DriftMapCtor, sm.FokkerPlanckCtor, ef.WakePotential, sm.UpdateSM, sm.KickMapApply],
         'lemmas': [sm.lemmas_fp, sm.lemmas_c03],
         'level': 'other',
         'claim': 'the ingredients of the stationary (Haissinski) relation are proved on the code: within one step the wake potential is computed from the projection left by the previous step, then wake kick, RF kick, drift, '
@@ -248,13 +248,13 @@ PROPERTIES = {
     },
     'C10': {
         'main_scenarios': ['records'],
-        'units': [mainloop.MainLoop, mainspec.MainWiring, mainspec.MapDispatch, io.ProgramOptionsGetters, io.ProgramOptionsSave, ps.UpdateXProjection, ps.UpdateYProjection, ps.Integrate, ps.Variance, ef.WakePotential, ef.UpdateCSR, ef.ElectricFieldScale, io.HDF5FileSources, io.HDF5AppendField, io.HDF5AppendTracks, io.ReadPhaseSpace, io.MakePSFromHDF5],
+        'units': [mainloop.MainLoop, mainspec.MainWiring, mainspec.MapDispatch, mainspec.MainUnits, io.HDF5FileUnits, ps.PhaseSpaceCtor12, ps.RulerCtor, ef.ElectricFieldScale, io.ProgramOptionsGetters, io.ProgramOptionsSave, ps.UpdateXProjection, ps.UpdateYProjection, ps.Integrate, ps.Variance, ef.WakePotential, ef.UpdateCSR, ef.ElectricFieldScale, io.HDF5FileSources, io.HDF5AppendField, io.HDF5AppendTracks, io.ReadPhaseSpace, io.MakePSFromHDF5],
         'lemmas': [],
         'level': 'other',
         'claim': 'partial: every record of a multi-row dataset takes row b from row b of its source (dataset extents vs buffer layout; for /CSR/Spectrum proved on the row copy of append(ElectricField*)) and no append reads beyond its source buffer; at every output event and at exit the CSR, wake-potential and particle datasets receive as many records as the time axis; the time value of the final record is simulationstep/steps; the derived quantities appended are the ones '
                  'computed by the verified projection/moment/CSR functions from the current grid (refresh calls precede the append in the skeleton); pending RF records are flushed at exit',
         'assumptions': [DROPS, 'HDF5File: the pairing dataset <- source accessor, the record extents of every dataset against the layout of its source buffer (class invariants of PhaseSpace / ElectricField / KickMap), and one record per append call are obligations over AST facts; append(const ElectricField*, bool) is enforced by the VCG with _appendData bound to a capture of pointer and buffer contents; the HDF5 library is trusted to transfer exactly the selected extents'],
-        'uncovered': ['frequency axis values', 'unit-conversion attributes other than the wake scale and Volt factor', 'time values of intermediate records'],
+        'uncovered': ['frequency axis values', 'time values of intermediate records', 'the physics of the unit formulas themselves (they are pinned as documented: natural bunch length, energy spread, charge, synchrotron period, W/Hz and W factors)', 'factor4Ohms of the impedance (a constant of the class)'],
         'explanation': 'ghost row counters on the control skeleton',
         'technique': TECH,
     },
